@@ -7,7 +7,7 @@ from __future__ import annotations
 
 import itertools
 import re
-from datetime import datetime, timedelta, timezone
+from datetime import datetime, timedelta, timezone, tzinfo
 
 from ..models import hostile
 from ..monitors.reach import Reach, opt
@@ -36,6 +36,25 @@ EXHAUSTIVE_SUBSPACES = {
 TIERS = {"quick": dict(nshards=16, strlen=2, rand=4000, crlen=6), "thorough": dict(nshards=48, strlen=3, rand=20000, crlen=8)}
 A = ['"', "\\", ",", ";", "=", " ", "a", "%", "2", "*", "'", "é", "\t"]
 TOKEN_RE = re.compile(r"^[!#$%&'+\-.^_`|~0-9A-Za-z]+$")
+
+
+class OtherZone(tzinfo):
+    """A fixed-offset zone implemented outside datetime.timezone, as zoneinfo.ZoneInfo / dateutil / pytz zones are."""
+
+    def __init__(self, minutes):
+        self.minutes = minutes
+
+    def utcoffset(self, dt):
+        return timedelta(minutes=self.minutes)
+
+    def dst(self, dt):
+        return timedelta(0)
+
+    def tzname(self, dt):
+        return "OTHER"
+
+    def __repr__(self):
+        return f"OtherZone({self.minutes})"
 
 
 def shards(tier, seed):
@@ -198,11 +217,17 @@ def check_structured(cx, http, DS, rng, cfg):
     # dates
     y = rng.randint(1000, 9999)
     dt = datetime(y, rng.randint(1, 12), rng.randint(1, 28), rng.randint(0, 23), rng.randint(0, 59), rng.randint(0, 59))
-    kind = rng.randint(0, 2)
+    kind = rng.randint(0, 4)
     if kind == 1:
         dt = dt.replace(tzinfo=timezone.utc)
     elif kind == 2:
         dt = dt.replace(tzinfo=timezone(timedelta(minutes=rng.randint(-14 * 60, 14 * 60))))
+    elif kind == 3:
+        # an aware datetime whose zone object is not a datetime.timezone (zoneinfo, dateutil, pytz, hand-written): UTC
+        # itself, a zone that happens to be at offset 0, or any other offset
+        dt = dt.replace(tzinfo=OtherZone(rng.choice([0, 0, 60, -300, 345])))
+    elif kind == 4:
+        dt = dt.replace(tzinfo=timezone(timedelta(0), "UTC-by-another-name"))
     with rec.guard({"pair": "date", "value": repr(dt)}, "C06"):
         exp = dt if dt.tzinfo else dt.replace(tzinfo=timezone.utc)
         lo = datetime(1000, 1, 1, tzinfo=timezone.utc)
